@@ -96,6 +96,43 @@ def run(ctx):
         idx = strip_refs(helper.trace(gets[0]["args"][1])) if gets else None
         ok_idx = idx is not None and idx[0] == "phi" and len(idx[2]) == 2
         ctx.check(ok_idx, "K2.helper-two-ways", "the read index is |idx| (non-negative) or len-|idx| (negative) (%s)" % cfg, "read index: %s" % (show_expr(idx) if idx else None), where=helper.where(), fn=helper.key)
+        # the sign test: exactly idx >= 0 selects |idx|, exactly idx < 0 selects len - |idx|
+        sign = None
+        for sb in sorted(helper.reachable()):
+            tt = helper.blocks[sb]["term"]
+            if tt["k"] != "SwitchInt" or tt.get("dty") != "bool":
+                continue
+            e = strip_refs(helper.trace(tt["discr"]))
+            nonneg_truth = None
+            if e[0] == "binop" and e[1] in ("Ge", "Gt", "Lt", "Le"):
+                x, y = strip_refs(e[2]), strip_refs(e[3])
+                op = e[1]
+                if y == ("arg", 2) and x[0] == "const":
+                    x, y = y, x
+                    op = {"Ge": "Le", "Gt": "Lt", "Lt": "Gt", "Le": "Ge"}[op]
+                if x == ("arg", 2) and y[0] == "const" and isinstance(const_value(y[1]), int):
+                    c = const_value(y[1])
+                    nonneg_truth = {("Ge", 0): True, ("Gt", -1): True, ("Lt", 0): False, ("Le", -1): False}.get((op, c), "wrong:%s %d" % (op, c))
+            elif e[0] == "call" and e[1] and e[1]["path"] in ("core::num::<impl i64>::is_negative",) and strip_refs(e[2][0]) == ("arg", 2):
+                nonneg_truth = False
+            if nonneg_truth is not None:
+                sign = (sb, nonneg_truth)
+        ctx.check(sign is not None and isinstance(sign[1], bool), "K2.helper-sign", "the helper branches on exactly idx >= 0 / idx < 0 (%s)" % cfg,
+                  "the helper's sign test is %s: index 0 (or -1) is sent down the wrong branch" % (sign[1] if sign else "not found"), where=helper.where(), fn=helper.key, nontrivial=True)
+        if sign is not None and isinstance(sign[1], bool) and gets:
+            sb, nn = sign
+            t_nn, t_neg = bool_edge(helper, sb, nn), bool_edge(helper, sb, not nn)
+            gbi = [bi for bi, t in helper.calls() if callee_path(t) == "core::slice::<impl [T]>::get"][0]
+            anc = {n for n in helper.reachable() if sb in helper.reachable(n)}
+            def under(tg, other):
+                only = (helper.reachable(tg) - helper.reachable(other)) | {tg} | helper.reachable(gbi) | {gbi}
+                with helper.restricted(only | anc):
+                    return strip_refs(helper.trace(gets[0]["args"][1]))
+            i_nn, i_neg = under(t_nn, t_neg), under(t_neg, t_nn)
+            has_sub = lambda x: expr_mentions(x, lambda y: y[0] == "call" and y[1] and y[1]["path"] == "core::num::<impl usize>::checked_sub")
+            has_abs = lambda x: expr_mentions(x, lambda y: y[0] == "call" and y[1] and y[1]["path"] == "core::num::<impl i64>::unsigned_abs")
+            ctx.check(has_abs(i_nn) and not has_sub(i_nn) and has_sub(i_neg) and has_abs(i_neg), "K2.helper-branches", "idx >= 0 reads at |idx|, idx < 0 reads at len - |idx| (%s)" % cfg,
+                      "non-negative branch reads at %s, negative branch at %s" % (show_expr(i_nn)[:80], show_expr(i_neg)[:80]), where=helper.where(), fn=helper.key, nontrivial=True)
 
         # ---------------- K3 / K4 on var
         vb, ve = roles.fn_of("var")
